@@ -266,6 +266,52 @@ theorem prioGo_mono (w : Nat) {d d' : Option BV4} (hd : optLe d d') {a b : Ins} 
     rw [hb]
     exact copyIn_mono w hd
 
+/-! ## tristate pin -/
+
+theorem length_evalTristate (w : Nat) (ins : Ins) : (evalTristate w ins).length = w := by
+  unfold evalTristate
+  split
+  · exact length_copyIn _ _
+  · split
+    · simp
+    · exact length_copyIn _ _
+    · exact length_copyIn _ _
+
+/-- an undefined output enable gives an undefined read-back; a defined one selects the driven data or the external value -/
+theorem evalTristate_mono (w : Nat) {a b : Ins} (h : InsLe a b) : evalTristate w a ⊑ evalTristate w b := by
+  have h0 := insLe_getD h 0
+  have h1 := insLe_getD h 1
+  have h2 := insLe_getD h 2
+  unfold evalTristate
+  cases ha : a.getD 1 none with
+  | none =>
+    rw [ha] at h1
+    rw [optLe_none_inv h1]
+    exact copyIn_mono w h0
+  | some en =>
+    rw [ha] at h1
+    obtain ⟨en', hb, hle⟩ := optLe_some_inv h1
+    rw [hb]
+    simp only []
+    have hbit := hle.2 0
+    cases he : en.bit 0 with
+    | x =>
+      simp only []
+      have := length_evalTristate w b
+      unfold evalTristate at this
+      rw [hb] at this
+      exact undef_le this
+    | t =>
+      rw [he] at hbit
+      have : en'.bit 0 = .t := by simpa [B4.le, eq_comm] using hbit
+      rw [this]
+      exact copyIn_mono w h0
+    | f =>
+      rw [he] at hbit
+      have : en'.bit 0 = .f := by simpa [B4.le, eq_comm] using hbit
+      rw [this]
+      exact copyIn_mono w h2
+
 theorem evalPrio_mono (w : Nat) {a b : Ins} (h : InsLe a b) : evalPrio w a ⊑ evalPrio w b := by
   unfold evalPrio
   cases h with
